@@ -176,6 +176,41 @@ def stopped_before_start():
     return out
 
 
+def every_emitter_of_the_watch_dies():
+    """one watch scheduled twice (two handlers) before start(), then start() and unschedule(): every emitter that was ever
+    created for that watch is dead and silent once unschedule() has returned"""
+    made = []
+
+    class Em(EventEmitter):
+        def __init__(self, *a, **k):
+            super().__init__(*a, **k)
+            made.append(self)
+            self.rounds_after = 0
+
+        def queue_events(self, timeout):
+            if gate["returned"]:
+                self.rounds_after += 1
+            self.stopped_event.wait(0.02)
+    gate = {"returned": False}
+    obs = BaseObserver(Em, timeout=0.02)
+    w = obs.schedule(FileSystemEventHandler(), "/w")
+    obs.schedule(FileSystemEventHandler(), "/w")
+    obs.start()
+    time.sleep(0.05)
+    obs.unschedule(w)
+    gate["returned"] = True
+    time.sleep(0.15)
+    out = []
+    alive = [e for e in made if e.is_alive()]
+    if alive or any(e.rounds_after for e in made):
+        out.append(f"{len(made)} emitter(s) were created for one watch; after unschedule() returned {len(alive)} of them still run ({sum(e.rounds_after for e in made)} production rounds afterwards)")
+    obs.stop()
+    obs.join(2)
+    for e in made:
+        e.stop()
+    return out
+
+
 def slow_emitter(kind):
     gate = {"returned": None}
 
@@ -212,7 +247,7 @@ def slow_emitter(kind):
 def main():
     if REPLAY is not None:
         c = REPLAY
-        pr = cross_thread(c["op"]) if c["kind"] == "cross" else reentrant(c["op"]) if c["kind"] == "reentrant" else second_stop_returns_early() if c["kind"] == "second-stop" else stopped_before_start() if c["kind"] == "stopped-before-start" else slow_emitter(c["op"])
+        pr = cross_thread(c["op"]) if c["kind"] == "cross" else reentrant(c["op"]) if c["kind"] == "reentrant" else second_stop_returns_early() if c["kind"] == "second-stop" else stopped_before_start() if c["kind"] == "stopped-before-start" else every_emitter_of_the_watch_dies() if c["kind"] == "every-emitter" else slow_emitter(c["op"])
         replay_result(bool(pr), pr[:3])
     bat = Battery({"cross-thread removal": ["unschedule", "remove", "unschedule_all", "stop"], "park point": "right after the dispatcher's membership re-check", "slow emitter": ["unschedule", "unschedule_all", "stop"]})
     for kind in ("unschedule", "remove", "unschedule_all", "stop"):
@@ -225,6 +260,10 @@ def main():
         pr = reentrant(kind)
         if pr:
             bat.fail("C05.callback-after-reentrant-removal", pr[0], {"kind": "reentrant", "op": kind}, "BaseObserver.dispatch_events")
+    bat.case("every-emitter-of-the-watch-dies")
+    pr = every_emitter_of_the_watch_dies()
+    if pr:
+        bat.fail("C05.an-emitter-of-the-unscheduled-watch-keeps-running", pr[0], {"kind": "every-emitter", "op": "unschedule"}, "BaseObserver.schedule")
     bat.case("stopped-before-start")
     pr = stopped_before_start()
     if pr:
